@@ -608,6 +608,9 @@ def run(ctx, rep):
     from . import c06
 
     c06.rule_iterloop(ctx, rep)  # lying iterators: the fill loop stores every item it takes, or panics
+    from . import c01 as _c01
+
+    _c01.rule_destroy(ctx, rep)  # a payload destructor is user code too: when it panics on the last release, the block still goes back (only a half-built allocation may leak)
     c06.rule_lenflow(ctx, rep)  # ... and lying containers: one length value (one call of a caller-implemented view) sizes the block and bounds the copy
     from . import c05 as _c05
 
@@ -644,6 +647,7 @@ def main(argv):
             ' Added later: R-PAYLOAD-DUP (user code unwinding while a value exists both in its block and as a bitwise copy), R-LAYOUT as a premise (the block really has room for the reported number of items, on every target width analysed; configuration arm32 included).'
             ' R-PAYLOAD-GAP.'
             ' Round fifteen: R-LENFLOW as a premise (one call of a caller-implemented view sizes the block and bounds the copy).'
+            ' Round sixteen: R-DESTROY as a premise (a payload destructor is user code).'
         ),
         rule_text="instances = (rule, API body or site); R-UNW instances are API bodies having at least one unwinding path",
         trusted_base=["rustc nightly MIR construction, drop elaboration (cleanup edges) and trait resolution", "std model table analysis/model.py (which std calls may unwind)", "panic while unwinding aborts"],
